@@ -744,7 +744,24 @@ class Program:
         if k == 'genfault':
             # the next read of the top registry's generation fails - during a registration below it, or during a lookup
             v = self.newval()
-            if rng.random() < 0.7:
+            if rng.random() < 0.3:
+                # the failure hits while a registry is being re-based onto the top registry; later changes in the top
+                # registry have to show below all the same
+                r2 = self.regs[2]
+                req1, prov1 = (self.iface(),), self.iface()
+
+                def setb(b):
+                    r2.__bases__ = b
+                self.emit('r2.lookup [before re-basing]', lambda: r2.lookup(req1, prov1, ''))
+                self.gen_fault = True
+                self.emit('r2.__bases__=(r0,) [generation read fails]', lambda: setb((self.regs[0],)))
+                self.gen_fault = False
+                v.ret = True
+                self.emit('r0.register', lambda: self.regs[0].register(req1, prov1, '', v))
+                self.emit('r2.lookup [after]', lambda: r2.lookup(req1, prov1, ''))
+                self.emit('r2.lookupAll [after]', lambda: sorted(map(R, r2.lookupAll(req1, prov1))))
+                self.emit('r2.__bases__ [after]', lambda: [self.regs.index(b) for b in r2.__bases__])
+            elif rng.random() < 0.7:
                 reg = self.regs[1]           # directly below the top registry
                 req1, prov1 = (self.iface(),), self.iface()
                 self.emit('r1.lookup(%s,%s) [before a failing registration]' % (R(req1), R(prov1)), lambda: reg.lookup(req1, prov1, ''))
